@@ -38,9 +38,13 @@ type Case struct {
 	Stop       string `json:"stop"` // stop | cancel | wait-then-stop | deadline (the broker's context expires by itself)
 	// ForeignUnsubs: Unsubscribe calls for channels that were never
 	// subscribed, issued before the traffic
-	ForeignUnsubs int    `json:"foreign_unsubscribes,omitempty"`
-	StopAt        string `json:"stop_at"` // idle | backlog | mid-publish
-	Procs         int    `json:"gomaxprocs"`
+	ForeignUnsubs int `json:"foreign_unsubscribes,omitempty"`
+	// Leavers subscribe and unsubscribe straight away, from one goroutine,
+	// and never look at their channel again: once Unsubscribe has returned
+	// they are no subscribers, and nothing may wait for them
+	Leavers int    `json:"leavers,omitempty"`
+	StopAt  string `json:"stop_at"` // idle | backlog | mid-publish
+	Procs   int    `json:"gomaxprocs"`
 }
 
 func (c *Case) lossless() bool {
@@ -233,6 +237,21 @@ func runCase(c *Case) (string, string) {
 	for i := 0; i < c.ForeignUnsubs; i++ {
 		if !within(limit, func() { b.Unsubscribe(ctx, make(chan int)) }) {
 			return "api-blocks", "Unsubscribe of a channel that was never subscribed does not return"
+		}
+	}
+	for i := 0; i < c.Leavers; i++ {
+		var ch chan int
+		if !within(limit, func() { ch = b.Subscribe(ctx) }) || ch == nil {
+			return "api-blocks", "Subscribe (of a subscriber that leaves at once) does not return a channel"
+		}
+		if !within(limit, func() { b.Unsubscribe(ctx, ch) }) {
+			return "api-blocks", "Unsubscribe (right after Subscribe) does not return"
+		}
+	}
+	if c.Leavers > 0 {
+		n := -1
+		if !vkit.Eventually(limit, func() bool { n = b.Stats(ctx).Subscriptions; return n == c.Subs }) {
+			return "ghost-subscription", fmt.Sprintf("%d subscribers subscribed and unsubscribed (each from one goroutine, in that order); %v later the broker still counts %d subscriptions, %d are left (BufferSize %d)", c.Leavers, limit, n, c.Subs, c.BufferSize)
 		}
 	}
 	startReaders := func() {
@@ -442,6 +461,9 @@ func genCase(t *rapid.T) *Case {
 	}
 	if rapid.IntRange(0, 3).Draw(t, "foreignUnsubs") == 0 {
 		c.ForeignUnsubs = rapid.IntRange(1, 3).Draw(t, "foreignUnsubsN")
+	}
+	if rapid.IntRange(0, 2).Draw(t, "leavers") == 0 {
+		c.Leavers = rapid.IntRange(1, 4).Draw(t, "leaversN")
 	}
 	nb := rapid.IntRange(1, 3).Draw(t, "bursts")
 	for i := 0; i < nb; i++ {
